@@ -104,12 +104,6 @@ void Interpret::setOption(ASTNode& n) {
     else // Normal option
         name = strdup(n.getValue());
 
-    if (isInitialized() and strcmp(name, SMTConfig::o_global_declarations) == 0) {
-        // the scope stacks of names and definitions are created according to this option
-        notify_formatted(true, "set-option failed for %s: the option cannot be changed after set-logic", name);
-        free(name);
-        return;
-    }
     SMTOption value(n);
     const char* msg = "ok";
     bool rval = config.setOption(name, value, msg);
